@@ -45,6 +45,10 @@ func main() {
 		os.Exit(2)
 	}
 
+	if os.Args[2] == "--race-worker" {
+		props.C12RaceWorker()
+		return
+	}
 	if os.Args[2] == "--replay" {
 		if len(os.Args) < 4 {
 			fmt.Fprintln(os.Stderr, "runner: --replay needs a file")
